@@ -3,14 +3,14 @@ CONSTANTS
   Inst = {a, b, c}
   Sh = {1}
   MaxClaims = 3
-  MaxDup = 1
+  MaxDup = 0
   MaxSnap = 0
   AllowLeave = FALSE
   AllowRelease = FALSE
   TsFix = TRUE
   Late = {}
   NeedKnown = FALSE
-  SplitDeliver = FALSE
+  SplitDeliver = TRUE
   GuardedEvict = TRUE
 INVARIANTS SingleNewestOwner
 CHECK_DEADLOCK FALSE
